@@ -1,6 +1,6 @@
 """C04 - terminal statuses are final; forbidden status requests have no effect."""
 from ovf.props.c03 import parked  # noqa: F401
-from ovf.props.common import batches, scale, ASSUME_SIM
+from ovf.props.common import batches, family_slices, scale, ASSUME_SIM
 from ovf.workloads import conduct, corpus, mon  # noqa: F401
 from ovf.props.reqsweep import request_sweep  # noqa: F401
 
@@ -10,7 +10,7 @@ RULE = ("(1) generated definitions x hashed outcomes x lazy schedules in which e
         "after the workflow became terminal (late reports), with crashes and early renders; offers after a terminal "
         "status, exceptions on late reports and status changes are asserted on every suffix; (2) request sweep: at "
         "every visited state of small histories each of the 16 statuses is requested on an alias-preserving clone and, "
-        "if the request raises, the persisted state must equal the state before; tasks that wait at the provider (pending / paused) when the cancel request comes, their answers arriving after the workflow was canceled; non-trivial = history with at least "
+        "if the request raises, the persisted state must equal the state before; tasks that wait at the provider (pending / paused) when the cancel request comes, their answers arriving after the workflow was canceled; engine commands beside each other (exhaustive family: one or two transitions x condition x {implicit continue, continue, noop, fail, noop+fail, task+fail, task} x publish x outcome; 3612 definitions); non-trivial = history with at least "
         "one API call after the first terminal status, or a (state, request) pair that was rejected; distinct = "
         "(definition, history) resp. (state digest, request) digest")
 ASSUMPTIONS = ASSUME_SIM
@@ -34,6 +34,8 @@ def jobs(tier, seed):
                   P=dict(p_intjoin=0.2, p_items=0.2, p_retry=0.1, p_fail_cmd=0.3, nmax=5), scheds=2, name="cancel-while-a-task-waits")
     # the repository's own fixture definitions under generated outcomes, schedules and requests
     js += [dict(fn="corpus", parts=4, part=i, runs=scale(tier, 4, 40), gseed=seed, ctl=dict(crash=0.04, early_render=0.5), name="corpus") for i in range(4)]
+    # engine commands beside each other (exhaustive family: one or two transitions x condition x {implicit continue, continue, noop, fail, noop+fail, task+fail, task} x publish x outcome; 3612 definitions)
+    js += family_slices("conduct", 3612, 128, tier, seed, parts=2, gen="cmds", scheds=1, lazy=[0], p_fail=0.0, name="engine-command-combinations")
     return js
 
 
